@@ -31,6 +31,7 @@ async def run_history(tree):
     events = []
     agents = {}
     seen = []
+    probes = [0]       # discovery probes seen so far
     wire = []          # (timeout, retries) of EVERY datagram handed to the transport, discovery probes included
 
     async def sender(endpoint, packet, timeout=None, retries=None):
@@ -40,7 +41,9 @@ async def run_history(tree):
         ver = dec_int(packet[k[0][1]:k[0][2]])
         if ver == 3:
             q = parse_v3(packet)
-            ag = agents.setdefault("v3", Agent({(1, 3, 6, 1, 2, 1, 1, 1, 0): enc_int(1)}, users=[User(b"u")]))
+            ag = agents.setdefault("v3", Agent({(1, 3, 6, 1, 2, 1, 1, 1, 0): enc_int(1)}, users=[User(b"u"), User(b"w")]))
+            if q["engine"] == b"":
+                probes[0] += 1
             wire.append([timeout if timeout is not None else -1, retries if retries is not None else -1])
             if q["engine"] != b"":
                 seen.append(dict(timeout=timeout, retries=retries, version="v3", ident="v3:" + q["user"].decode()))
@@ -58,6 +61,7 @@ async def run_history(tree):
             if kind == "req":
                 n0 = len(seen)
                 w0 = len(wire)
+                p0 = probes[0]
                 try:
                     await c.multiget([OID("1.3.6.1.2.1.1.1.0")])
                     ok = True
@@ -65,7 +69,7 @@ async def run_history(tree):
                     ok = False
                 obs = seen[-1] if len(seen) > n0 else dict(timeout=-1, retries=-1, version="none", ident="none")
                 # the version is the one the *message layer* spoke; for v1/v2c it is also in ident
-                events.append(dict(e="request", ok=ok and len(seen) > n0, wire=[list(x) for x in wire[w0:]], **obs))
+                events.append(dict(e="request", ok=ok and len(seen) > n0, wire=[list(x) for x in wire[w0:]], probes=probes[0] - p0, **obs))
             elif kind == "cfg":
                 try:
                     c.configure(**kwargs(it[1]))
